@@ -176,6 +176,11 @@ def main():
         return common.finish(rep)
     scns = scenrun.enumerate_scenarios(rep, "MC_XWorldOpa", cfg(rep.tier), f"c19_{rep.tier}")
     findings = scenrun.evaluate(rep, scns, eval_world, procs=a.procs)
+
+    def _mut(s):
+        s["blocks"][0]["lagsums"][1] -= 4
+        return s
+    scenrun.self_test(rep, scns, eval_world, _mut, "lag-1 sum of block 1 changed by 4")
     findings += red_noise(rep, a)
     scenrun.report(rep, findings, TAGS)
     rep.exhaustive = True
